@@ -212,6 +212,36 @@ def r16c(ctx, run):
               "the provenance resolution no longer recognises `to_naive()` at the per-declaration lookups (%d sites): the rule would be blind" % n_control)
 
 
+def r16d(ctx, run):
+    """the comptime arguments a call is bound to are the ones evaluated for THAT call: what is stored in call_associated_generics, and what the callee's
+    location is made concrete with, comes from evaluate_comptime_args of this call (or is read back from the call's own entry) - no other method of
+    the inference context (a search for an earlier, 'equivalent' instantiation) supplies them.  Two calls with different arguments must not meet."""
+    import prov
+    G = "hir_ty/src/globals.rs"
+    g = ctx.syn.fn("GlobalInferenceCtx::infer_expr", G)
+    own = {f.qual.rsplit("::", 1)[-1] for f in ctx.syn.fns_in(G) if f.impl_ty and f.impl_ty.startswith("GlobalInferenceCtx") and f.body is not None}
+    P = prov.Prov(g)
+    sites = []
+
+    def on(n, sc):
+        if n.get("k") == "mcall" and n["m"] == "insert" and canon(n["r"]).endswith("call_associated_generics") and len(n["a"]) == 2:
+            sites.append((n["ln"], "stored for the call", P.tags(n["a"][1], sc)))
+        if n.get("k") == "mcall" and n["m"] == "make_concrete" and n["a"] and canon(n["a"][0]).startswith("Some("):
+            sites.append((n["ln"], "the callee's location is made concrete with", P.tags(n["a"][0], sc)))
+    P.visit(on)
+    if len(sites) < 3:
+        raise LookupError("sites that bind comptime arguments to a call: %d" % len(sites))
+    for ln, what, tags in sites:
+        suppliers = {t[2:] for t in tags if t.startswith("m:") and t[2:] in own}
+        evaluated = "evaluate_comptime_args" in suppliers
+        read_back = "m:.call_associated_generics" in tags and "m:get" in tags
+        foreign = suppliers - {"evaluate_comptime_args"}
+        run.check((evaluated or read_back) and not foreign, g.site(ln), "comptime arguments %s: from %s" % (what, "evaluate_comptime_args" if evaluated else "the call's own entry"), g.qual,
+                  "comptime-args-of-this-call", g.file, ln,
+                  "the comptime arguments %s (line %d) are not (only) the ones evaluated for this call: they also come from %s - a call can be bound to the instantiation of "
+                  "another call with different arguments" % (what, ln, sorted(foreign) or sorted(t for t in tags if t.startswith("m:"))[:5]))
+
+
 def _reuse(modname, fname):
     def f(ctx, run):
         mod = __import__(modname)
@@ -224,6 +254,7 @@ def rules(ctx):
         Rule("R16.a", "every table of per-body artefacts is keyed by a location that carries the comptime arguments", 8, r16a),
         Rule("R16.b", "process-global tables written by the type evaluator are not keyed per declaration while holding per-instantiation values", 1, r16b),
         Rule("R16.c", "no key of a per-body table is computed from a location whose comptime arguments were erased (to_naive)", 40, r16c),
+        Rule("R16.d", "the comptime arguments bound to a call are the ones evaluated for that call (no other supplier)", 3, r16d),
         Rule("R15.f", "a comptime parameter evaluates to the comptime argument at its comptime_idx (shared with C15)", 2, _reuse("c15", "r15f")),
         Rule("R27.e", "every Mangle impl evaluated down to the parts list: the generic id of an instantiation is present on every branch (shared with C27)", 20, _reuse("c27", "r27e")),
     ]
